@@ -17,7 +17,7 @@ def load_known_findings() -> dict[str, dict]:
     """id -> entry for entries with status 'known' (fixed entries suppress
     nothing and are therefore not returned)."""
     try:
-        data = json.loads(_KF_PATH.read_text())
+        data = json.loads(_KF_PATH.read_text(encoding='utf-8'))
     except FileNotFoundError:
         return {}
     return {
